@@ -94,8 +94,8 @@ except ImportError:  # run as a script (child interpreters of the ambient probe)
     from common import impl_error
 
 PROP = "C03"
-MODULES = ["C03", "C03a", "C03b", "C03c", "C03d", "C03e"]
-GEN = ["Elements"]
+MODULES = ["C03", "C03a", "C03b", "C03c", "C03d", "C03e", "C03t"]
+GEN = ["Elements", "TranslCsbk"]
 MATCHERS = {}
 
 SKIP_ATTRS = ("crc_ok", "crc9_ok")
@@ -4034,6 +4034,76 @@ def ENTRY_POINTS():
     return eps
 
 
+def run_transl(ctx):
+    """Differential validation of the source translator for bit-field PDU code (tools/py2lean_bits.py on top of tools/py2lean.py) and
+    of its prelude (Model/PyBits.lean, Model/Py.lean), trusted base of Props/C03t: the definitions TRANSLATED from the source of
+    CSBK.__init__ / as_bits / calculate_crc_ccit / from_bits (`Gen/TranslCsbk.lean`, driver operation `t.cs.dec`, CRC16.calculate
+    instantiated with the driver's bitwise CRC-CCITT) against the real class: every attribute of the object `CSBK.from_bits`
+    returns and its `as_bits()`, or the exception class, on structured words of all opcodes (implemented ones favoured, all
+    64 opcode values x feature set ids, zeroed CRC field, single-bit neighbours) and on wrong lengths.  A difference is a
+    translator or prelude bug, never a finding about /repo."""
+    if ctx.search_only or not ctx.driver_ok:
+        return
+    from okdmr.dmrlib.etsi.layer2.pdu.csbk import CSBK as _CSBK
+    from okdmr.dmrlib.etsi.layer3.elements.service_options import ServiceOptions as _SO
+    rng = ctx.rng
+
+    def bs(b):
+        return b.to01() if len(b) else "-"
+
+    def val(v):
+        if v is None:
+            return "None"
+        if isinstance(v, bool):
+            return "1" if v else "0"
+        if isinstance(v, enum.Enum):
+            return str(v.value)
+        if isinstance(v, bitarray):
+            return bs(v)
+        if isinstance(v, int):
+            return str(v)
+        if isinstance(v, bytes):
+            return v.hex() if v else "-"
+        if isinstance(v, _SO):
+            return "{" + ";".join(f"{k}={val(x)}" for k, x in vars(v).items()) + "}"
+        return "?" + type(v).__name__
+
+    def parse(w):
+        try:
+            o = _CSBK.from_bits(bitarray(w))
+        except Exception as e:  # noqa
+            return impl_error(e)
+        try:
+            enc = bs(o.as_bits())
+        except Exception as e:  # noqa
+            enc = impl_error(e)
+        return ";".join(f"{k}={val(v)}" for k, v in vars(o).items()) + " " + enc
+
+    def rnd(n):
+        return "".join(rng.choice("01") for _ in range(n))
+
+    implemented = [56, 4, 5, 38, 61, 7, 8, 40, 25]
+    words = ["0" * 96, "1" * 96]
+    for op in range(64):
+        for fid in ("00000000", "00010000", rnd(8)):
+            words.append(rnd(2) + format(op, "06b") + fid + rnd(80))
+    for _ in range(ctx.budget(1200, 20000)):
+        w = rnd(2) + format(rng.choice(implemented), "06b") + rng.choice(("00000000", "00010000", "01101000", rnd(8))) + rnd(80)
+        r = rng.random()
+        if r < 0.25:
+            w = w[:80] + "0" * 16           # the constructor computes the CRC
+        elif r < 0.35:
+            i = rng.randrange(96)
+            w = w[:i] + ("1" if w[i] == "0" else "0") + w[i + 1:]
+        elif r < 0.40:
+            w += rnd(rng.choice((1, 8, 96)))  # longer buffers are accepted
+        words.append(w)
+    words += [rnd(k) for k in (0, 1, 80, 95)]
+    pairs = [("t.cs.dec " + (w or "-"), parse(w)) for w in words]
+    ctx.count("transl:CSBK.from_bits", len(words))
+    ctx.correspond("transl", pairs)
+
+
 def run(ctx):
     ctx.rule = (
         "per PDU kind and variant (opcode / format): corpus of repaired defects first; then a type-directed sweep — every field in turn at "
@@ -4086,7 +4156,13 @@ def run(ctx):
         "tied to the code by the `x.encattrs` correspondence lines of this run (all attributes of real objects built with every constructor argument set)",
         "the 'right' check values fed to the transform generator come from the library's CRC16 / CRC8 / CRC9 / ReedSolomon1294 / FiveBitChecksum and "
         "from a bitwise CRC / checksum written here (RS parity: library only); the theorems do not depend on them (the CRC functions are parameters)",
+        "tools/py2lean.py + tools/py2lean_bits.py + tools/extract_transl_pdu.py (source translator: Gen/TranslCsbk.lean from inspect.getsource of CSBK.__init__ / as_bits / "
+        "calculate_crc_ccit / from_bits, ServiceOptions and the element helpers they call) and lean/DmrVerif/Model/Py.lean, Model/PyBits.lean (semantics of the Python subset, "
+        "bitarray primitives); validated on every run by the differential operation t.cs.dec (run_transl); Props/C03t proves the translated definitions equal to Model/PduCsbk's "
+        "Csbk.dec / Csbk.enc for all bit strings and whatever CRC16.calculate computes; the call boundary (CRC16.calculate, bytes_to_bits are parameters of the translated "
+        "definitions) is trusted",
     ]
+    run_transl(ctx)
     ctx.assumptions += [
         "crc_ok / crc9_ok (integrity indicators, property C04) are not part of the compared field tuple",
         "in-range field values: WF predicates of Model/Pdu*.lean (e.g. bit_padding 8 bits, blocks_to_follow < 128, no CRC-32 / DBSN on block variants that do not carry them)",
